@@ -124,6 +124,7 @@ type snapshot struct {
 	canon   string
 	aliased bool
 	exotic  string // why ToJSON may legitimately fail ("" = it must succeed)
+	unpatched string // a jump without offset in a compiled body held by the variables (C08's open finding)
 }
 
 // scanAttrs finds aliasing (one container reachable twice), cycles and non-finite floats.
@@ -216,6 +217,7 @@ func takeSnapshot(vm *ds.Context) snapshot {
 	}
 	s.seed, _ = vm.GetCurSeed()
 	s.canon = CanonMap(vm.Attrs)
+	s.unpatched = unpatchedJumpInBodies(vm.Attrs)
 	return s
 }
 
@@ -351,6 +353,13 @@ func c09Exec(raw json.RawMessage, res *RunResult) {
 				res.Probe("opcount_differs_after_restore")
 			}
 			if f := DiffOutcome(ref[i], &oc); f != "" {
+				if op := snaps[i].unpatched + snaps[i+1].unpatched; op != "" {
+					// the uncrashed VM holds a body compiled with a jump that never got its offset (C08's open
+					// finding: code left behind by an abandoned '||' / '&&' / '?' alternative); the restored VM
+					// recompiled the body from its text. Its own signature.
+					res.Violate("restore-mismatch:original-body-has-unpatched-jump", "statement %d differs in %s: the VM that never crashed executes a precompiled body containing an unpatched %s, the VM restored from JSON after statement %d recompiled the body from its text\n  stmt=%q\n  uncrashed: %s\n  restored:  %s\n  script=%q", i+1, f, op, from, sc.Stmts[i], ref[i].Short(), o.Short(), sc.Stmts)
+					break
+				}
 				if strings.Contains(ref[i].Err, "VM内部错误") && !strings.Contains(oc.Err, "VM内部错误") {
 					// the original VM executed malformed precompiled code (C08's subject); the restored VM
 					// recompiled the body from its text and works: its own signature
@@ -373,6 +382,56 @@ func c09Exec(raw json.RawMessage, res *RunResult) {
 	res.Nontrivial = compared >= 3
 	res.CaseKey = HashStr(strings.Join(sc.Stmts, "\x00"))
 	_ = hex.EncodeToString
+}
+
+// unpatchedJumpInBodies returns the name of a jump instruction without offset found in the compiled
+// body of a function / computed value reachable from the variables ("" if none).
+func unpatchedJumpInBodies(m *ds.ValueMap) string {
+	found := ""
+	seen := map[any]bool{}
+	var walk func(v *ds.VMValue, depth int)
+	walk = func(v *ds.VMValue, depth int) {
+		if v == nil || found != "" || depth > 50 {
+			return
+		}
+		if ops, ok := ds.VerifBodies(v); ok {
+			for _, op := range ops {
+				switch op.Name {
+				case "jne", "je", "je.dup", "jmp":
+					if op.Value == nil {
+						found = op.Name
+						return
+					}
+				}
+			}
+		}
+		switch d := v.Value.(type) {
+		case *ds.ArrayData:
+			if d == nil || seen[d] {
+				return
+			}
+			seen[d] = true
+			for _, e := range d.List {
+				walk(e, depth+1)
+			}
+		case *ds.DictData:
+			if d == nil || d.Dict == nil || seen[d] {
+				return
+			}
+			seen[d] = true
+			d.Dict.Range(func(_ string, e *ds.VMValue) bool { walk(e, depth+1); return found == "" })
+		case *ds.ComputedData:
+			if d == nil || d.Attrs == nil || seen[d] {
+				return
+			}
+			seen[d] = true
+			d.Attrs.Range(func(_ string, e *ds.VMValue) bool { walk(e, depth+1); return found == "" })
+		}
+	}
+	if m != nil {
+		m.Range(func(_ string, e *ds.VMValue) bool { walk(e, 0); return found == "" })
+	}
+	return found
 }
 
 // shapeOfJSON abstracts a snapshot to its tree of type tags (distinct-state measure).
@@ -436,7 +495,7 @@ func c09Shrink(raw json.RawMessage) []json.RawMessage {
 func init() {
 	Register(&Check{
 		ID: "C09", Level: "fault_enumeration",
-		QuickRuns: 5000, ThoroughRuns: 300000,
+		QuickRuns: 10000, ThoroughRuns: 300000,
 		Gen: c09Gen, Exec: c09Exec, Shrink: c09Shrink,
 		Rule: "one case = one generated session of 4-12 statements (ints, floats incl. negative zero / subnormal / beyond-int64 / shortest-form corner cases, strings, arrays, dicts, functions, computed values with attributes, macros around definitions, follow-ups that call restored functions, load restored computed values, index and mutate restored containers; sometimes a cycle or a non-finite float). The host snapshots {Attrs.ToJSON, GetCurSeed} after every statement; EVERY crash point p is enumerated: a fresh VM is restored from snapshot p (or, fault 'lost write', p-1) and statements p+1..n are replayed and compared field by field (value, error, detail, matched/rest, op count, generator bytes, variables) with the run that never crashed. Every snapshot is also checked for structural round trip and for error-on-unrepresentable. distinct = distinct statement lists; non-trivial = at least 3 statements were compared after a restore",
 		Real: []string{"dicescript VM, ToJSON/UnmarshalJSON of values and variable maps, lazy compilation of restored functions/computed values"},
